@@ -71,6 +71,63 @@ def arbiter_roles(rep, idx, rule):
     return r
 
 
+def grant_in_range(rep, c, r, N):
+    """Value-set invariant: grant starts at 0 and every value ever assigned to it is the index variable of a range()
+    loop whose bounds lie within [0, len(initiators)).  Hence an out-of-range grant (possible encodings when the number
+    of initiators is not a power of two) is unreachable from reset, and exactly one Case of every Switch(grant) matches."""
+    site = c.fi.site
+    N = c.norm(N)
+
+    def nonneg(e, depth=0):
+        e = c.norm(e)
+        if e[0] == 'const':
+            return isinstance(e[1], int) and e[1] >= 0
+        if e[0] == 'idx' and e[1] in c.t.loops and depth < 4:
+            L = c.t.loops[e[1]]
+            return L.kind == 'enum' or (L.bounds is not None and nonneg(L.bounds[0], depth + 1))
+        if e[0] == 'lin':
+            return isinstance(e[1], int) and e[1] >= 0 and all(k > 0 and nonneg(t, depth + 1) for t, k in e[2])
+        return False
+
+    def at_most_n(e, depth=0):
+        """e <= N (e is used as an exclusive upper bound)."""
+        e = c.norm(e)
+        if e == N:
+            return True
+        if e[0] == 'const':
+            return False
+        if e[0] == 'idx' and e[1] in c.t.loops and depth < 4:
+            L = c.t.loops[e[1]]
+            if L.kind == 'enum':
+                return c.norm(('call', ('name', 'len'), (L.seq,), ())) == N
+            return L.bounds is not None and at_most_n(L.bounds[1], depth + 1)     # idx < hi <= N
+        return False
+
+    sig = c.t.sigs[r.GRANT[1]]
+    kws = dict(sig.ctor[3]) if sig.ctor[0] == 'call' else {}
+    init = kws.get('init', kws.get('reset', ('const', 0)))
+    rep.check(c.norm(init) == ('const', 0), "C08.7", site, "grant starts at initiator 0", f"init={ir.show(init)}", nontrivial=True)
+    for d in c.drivers_of(r.GRANT):
+        v = c.norm(d.value)
+        what = f"grant <= {c.show(d.value)} is the index of an initiator"
+        if v[0] == 'idx' and v[1] in c.t.loops and c.t.loops[v[1]].kind == 'range':
+            L = c.t.loops[v[1]]
+            lo_ok, hi_ok = nonneg(L.bounds[0]), at_most_n(L.bounds[1])
+            if lo_ok and hi_ok:
+                rep.ok("C08.7", site, what, f"{ir.show(c.norm(L.bounds[0]))} <= value < {ir.show(c.norm(L.bounds[1]))} <= {ir.show(N)}")
+            else:
+                # a bound that provably exceeds the list is a violation; anything else is undecided
+                hi = c.norm(L.bounds[1])
+                over = hi[0] == 'lin' and len(hi[2]) == 1 and hi[2][0] == (N, 1) and isinstance(hi[1], int) and hi[1] > 0
+                rep.form(False, "C08.7", site, what, f"loop bounds {ir.show(c.norm(L.bounds[0]))} .. {ir.show(hi)}",
+                         wrong=f"the loop runs up to {ir.show(hi)}, beyond the {ir.show(N)} initiators: grant can take a value no Case matches, "
+                               "after which no initiator owns the bus" if over else None)
+        elif v[0] == 'const' and isinstance(v[1], int) and v[1] == 0:
+            rep.ok("C08.7", site, what, "constant 0")
+        else:
+            rep.unk("C08.7", site, what, "the assigned value is not a range() loop index; its range is not decided")
+
+
 def run(rep, idx, tier):
     rep.explanation = EXPLANATION
     rep.assume("A1", "A2", "A3", "A4", "A6")
@@ -80,6 +137,7 @@ def run(rep, idx, tier):
     rep.require("C08.4", 2)
     rep.require("C08.5", 5)
     rep.require("C08.6", 1)
+    rep.require("C08.7", 2)
     r = arbiter_roles(rep, idx, "C08.1")
     if r is None:
         return
@@ -140,6 +198,9 @@ def run(rep, idx, tier):
                    rows=rows)
         else:
             rep.bad("C08.4", site, what, f"ownership can change while the owner's cycle is in progress {wit}", line=d.lineno)
+
+    # ---- C08.7 the grant register only ever holds the index of an initiator ------------------------------
+    grant_in_range(rep, c, r, n_init)
 
     # ---- C08.6 read data broadcast -------------------------------------------------------------------
     ds = c.drivers_of(c.parse("intr.dat_r", env))
